@@ -466,6 +466,7 @@ PROPS["C17"] = dict(
 )
 
 C09_ENV = {"VERIF_SV_CAP": "26", "VERIF_C09_MAXD": "24"}
+C09_ENV40 = {"VERIF_SV_CAP": "42", "VERIF_C09_MAXD": "40"}
 PROPS["C09"] = dict(
     functions=["sender::uplink_recv::process_uplink_packet (async fn without a suspending await: polled exactly once, see DESIGN.md 2.5)",
                "SrtlaRegistrationManager::{process_registration_packet, reg1_if_ngp_immediate}", "SrtlaConnection::{clear_pre_registration_state, record_rtt_probe}",
@@ -494,6 +495,10 @@ PROPS["C09"] = dict(
         H("c09::c09_reg2", "shell", env=C09_ENV, desc="REG2: never relayed", timeout=1500),
         H("c09::c09_reg3", "shell", env=C09_ENV, desc="REG3: never relayed; connects the uplink, warming with clean accounting", timeout=1500),
         H("c09::c09_reg_err", "shell", env=C09_ENV, desc="REG_ERR: never relayed; disconnects", timeout=1500),
+        # thorough: the same instances up to 40 bytes (covers the 38-byte extended keepalive echo and longer relayed datagrams)
+        H("c09::c09_keepalive", "shell", tier="thorough", env=C09_ENV40, desc="keepalive echo, datagrams up to 40 B (38-byte extended keepalive)", bounds="0..=40 B", timeout=3000),
+        H("c09::c09_other_types", "shell", tier="thorough", env=C09_ENV40, desc="other type codes, datagrams up to 40 B", bounds="0..=40 B", timeout=3000),
+        H("c09::c09_srt_ack", "shell", tier="thorough", env=C09_ENV40, desc="SRT ACK, datagrams up to 40 B", bounds="0..=40 B", timeout=3000),
     ],
 )
 
